@@ -225,12 +225,16 @@ def chop_structure(chk, mod):
         try:
             run1(lambda: mod.Frame.chop(fr, Ch(1.0, ['o'], ['c'])))
             chk.decided(f'{MOD}:Frame.chop/refuses a chopper before the frame', False)
-        except ValueError:
+        except (core.Unsupported, core.PathLimit):
+            raise
+        except Exception:  # noqa: BLE001 -- any refusal counts
             chk.decided(f'{MOD}:Frame.chop/refuses a chopper before the frame', True)
         try:
             run1(lambda: mod.Frame.chop(fr, Ch(5.0, ['o1', 'o2'], ['c1'])))
             chk.decided(f'{MOD}:Frame.chop/open and close windows must pair up', False)
-        except ValueError:
+        except (core.Unsupported, core.PathLimit):
+            raise
+        except Exception:  # noqa: BLE001 -- any refusal counts
             chk.decided(f'{MOD}:Frame.chop/open and close windows must pair up', True)
     finally:
         mod._chop = saved
